@@ -482,7 +482,9 @@ func call(q Req, in *Inst) (dig string, errs string) {
 	case "ParseXmp":
 		var x xmp.XMP
 		x, err = xmp.ParseXmp(plain)
-		dig = digest.Of(x)
+		if !q.Alloc { // (the digest of a result with 100,000 list items is not the library's allocation)
+			dig = digest.Of(x)
+		}
 		keep(x)
 	case "ItScan":
 		var t imagetype.ImageType
